@@ -522,7 +522,7 @@ def main(tier, replay=None):
     broken = bool(ob['failed'])
     if tier == 'quick':
         shapes = [(2, 1), (3, 2), (4, 3)]
-        seeds = [1, 2, 3, 4] if not broken else list(range(1, 13))
+        seeds = list(range(1, 13)) if not broken else list(range(1, 31))
     else:
         shapes = [(2, 1), (2, 2), (3, 1), (3, 2), (3, 3), (4, 2), (4, 3), (5, 4), (6, 6)]
         seeds = list(range(1, 9))
